@@ -5,12 +5,12 @@ package main
 
 import (
 	"context"
-	"math/big"
 	"encoding/json"
 	"fmt"
 	"go/ast"
 	"go/token"
 	"go/types"
+	"math/big"
 	"os"
 	"os/exec"
 	"path/filepath"
@@ -27,14 +27,14 @@ type rvalue struct {
 }
 
 type replayCtx struct {
-	eng   *Engine
-	res   *UnitResult
-	o     *Obligation
-	u     *Unit
-	query string
-	n     int
-	pkg   *types.Package
-	notes []string
+	eng     *Engine
+	res     *UnitResult
+	o       *Obligation
+	u       *Unit
+	query   string
+	n       int
+	pkg     *types.Package
+	notes   []string
 	helpers []string
 	collect bool
 	want    []string
